@@ -242,6 +242,87 @@ fn message_part(seed: u64, evals: &AtomicU64, nontrivial: &AtomicU64) -> (Vec<Vi
     (out, encodings)
 }
 
+// ───────────── codec reuse: histories of good and bad frames on ONE codec ─────────────
+
+fn codec_history_part(evals: &AtomicU64, nontrivial: &AtomicU64) -> Vec<Violation> {
+    let good: Vec<Message> = vec![Message::Ping { seq: 6 }, Message::Pong { seq: 9 }, Message::Ack { file_id: 3, success: true, message: Some("ok".into()) }, Message::Error { code: 5, message: "e".repeat(5000) }];
+    let frame = |m: &Message| {
+        let mut w = Vec::new();
+        let _ = Codec::new().write_message(&mut w, m);
+        w
+    };
+    // frame kinds: G0..G3 good; BP = valid header, undecodable payload; TR = truncated payload (EOF inside);
+    // BH = bad header; HUGE = valid header announcing 1 MiB, only 3 bytes present
+    let mut menu: Vec<(String, Vec<u8>, Option<Message>)> = good.iter().enumerate().map(|(i, m)| (format!("G{i}"), frame(m), Some(m.clone()))).collect();
+    let mut bp = FrameHeader::new(MessageType::Ack, 9).encode().to_vec();
+    bp.extend_from_slice(&[0xFF; 9]);
+    menu.push(("BP".into(), bp, None));
+    let mut tr = frame(&good[3]);
+    tr.truncate(12 + 100);
+    menu.push(("TR".into(), tr, None));
+    menu.push(("BH".into(), b"XOPA\x00\x00\x00\x00\x06\x01\x00\x00".to_vec(), None));
+    let mut hg = FrameHeader::new(MessageType::Ping, 1 << 20).encode().to_vec();
+    hg.extend_from_slice(&[1, 2, 3]);
+    menu.push(("HUGE".into(), hg, None));
+    let n = menu.len();
+    let mut out = Vec::new();
+    // all sequences of length 1..=3, each frame delivered through its own reader to one shared codec
+    for len in 1..=3usize {
+        for idx in 0..n.pow(len as u32) {
+            let mut k = idx;
+            let seq: Vec<usize> = (0..len).map(|_| { let x = k % n; k /= n; x }).collect();
+            evals.fetch_add(1, Ordering::Relaxed);
+            if seq.iter().any(|&i| menu[i].2.is_none()) && seq.iter().any(|&i| menu[i].2.is_some()) {
+                nontrivial.fetch_add(1, Ordering::Relaxed);
+            }
+            let names: Vec<&str> = seq.iter().map(|&i| menu[i].0.as_str()).collect();
+            let (res, max_single, _) = with_alloc_tracking(|| {
+                catch(std::panic::AssertUnwindSafe(|| {
+                    let mut codec = Codec::new();
+                    for &i in &seq {
+                        let r = codec.read_message(&mut &menu[i].1[..]);
+                        match (&menu[i].2, r) {
+                            (Some(m), Ok(got)) if &got == m => {}
+                            (Some(_), other) => return Some(format!("good frame {} came back as {:?}", menu[i].0, other.map(|m| format!("{m:?}").chars().take(60).collect::<String>()))),
+                            (None, Ok(got)) => return Some(format!("bad frame {} decoded to a value: {:?}", menu[i].0, format!("{got:?}").chars().take(60).collect::<String>())),
+                            (None, Err(_)) => {}
+                        }
+                    }
+                    None
+                }))
+            });
+            let det = json!({"part":"codec_history","sequence":names});
+            match res {
+                Err(p) => out.push(v("panic", format!("codec panicked on history {names:?}: {p}"), det)),
+                Ok(Some(m)) => out.push(v("codec_history", format!("one Codec, frames {names:?} (each from its own reader): {m}"), det)),
+                Ok(None) if max_single > ALLOC_BOUND => out.push(v("alloc_bound", format!("history {names:?}: single allocation of {max_single}"), det)),
+                Ok(None) => {}
+            }
+            if out.len() > 5 {
+                return out;
+            }
+        }
+    }
+    // concatenated stream: after a well-framed but undecodable payload the stream is still in step
+    for a in 0..4usize {
+        for b in 0..4usize {
+            evals.fetch_add(1, Ordering::Relaxed);
+            let mut stream = menu[a].1.clone();
+            stream.extend_from_slice(&menu[4].1);
+            stream.extend_from_slice(&menu[b].1);
+            let mut codec = Codec::new();
+            let mut r = &stream[..];
+            let r1 = codec.read_message(&mut r).ok();
+            let r2 = codec.read_message(&mut r).is_err();
+            let r3 = codec.read_message(&mut r).ok();
+            if r1 != menu[a].2 || !r2 || r3 != menu[b].2 {
+                out.push(v("codec_history", format!("stream [{}, BP, {}] on one codec: first ok={}, middle rejected={}, last ok={}", menu[a].0, menu[b].0, r1 == menu[a].2, r2, r3 == menu[b].2), json!({"part":"codec_stream","a":a,"b":b})));
+            }
+        }
+    }
+    out
+}
+
 // ───────────── totality ─────────────
 
 fn decoders(bytes: &[u8]) -> Option<(&'static str, String)> {
@@ -442,42 +523,6 @@ fn field_corruptions(seed: u64) -> Vec<(String, Vec<u8>)> {
 
 // ───────────── CLI file readers ─────────────
 
-fn run_limited(args: &[std::ffi::OsString], timeout_s: u64) -> (Option<i32>, Option<i32>, bool, String) {
-    use std::os::unix::process::{CommandExt, ExitStatusExt};
-    let mut cmd = std::process::Command::new(cli_bin());
-    cmd.args(args).env("RUST_LOG", "off").env("MALLOC_ARENA_MAX", "1").env("TOKIO_WORKER_THREADS", "2").stdin(std::process::Stdio::null()).stdout(std::process::Stdio::null()).stderr(std::process::Stdio::piped());
-    unsafe {
-        cmd.pre_exec(|| {
-            let lim = libc::rlimit { rlim_cur: 1 << 30, rlim_max: 1 << 30 };
-            libc::setrlimit(libc::RLIMIT_AS, &lim);
-            Ok(())
-        });
-    }
-    let mut child = cmd.spawn().unwrap_or_else(|e| machinery_error(format!("spawn copia: {e}")));
-    let start = std::time::Instant::now();
-    loop {
-        match child.try_wait() {
-            Ok(Some(st)) => {
-                let mut err = String::new();
-                if let Some(mut e) = child.stderr.take() {
-                    use std::io::Read;
-                    let _ = e.read_to_string(&mut err);
-                }
-                return (st.code(), st.signal(), false, err);
-            }
-            Ok(None) => {
-                if start.elapsed().as_secs() >= timeout_s {
-                    let _ = child.kill();
-                    let _ = child.wait();
-                    return (None, None, true, String::new());
-                }
-                std::thread::sleep(std::time::Duration::from_millis(2));
-            }
-            Err(e) => machinery_error(format!("wait: {e}")),
-        }
-    }
-}
-
 fn cli_part(thorough: bool, seed: u64, evals: &AtomicU64) -> Vec<Violation> {
     let sc = Scratch::new("c20cli");
     let basis = junk(seed, 41, 3000);
@@ -564,6 +609,7 @@ pub fn run(ctx: &Ctx) -> ! {
             }
             "header" => vs.extend(header_part(&evals, &nontrivial).into_iter().filter(|x| x.detail["buf"] == d["buf"])),
             "cli" => vs.extend(cli_part(true, val["seed"].as_u64().unwrap_or(ctx.seed), &evals).into_iter().filter(|x| x.detail["name"] == d["name"])),
+            "codec_history" | "codec_stream" => vs.extend(codec_history_part(&evals, &nontrivial)),
             _ => vs.extend(message_part(val["seed"].as_u64().unwrap_or(ctx.seed), &evals, &nontrivial).0),
         }
         let mut rep = Report::new("exploration");
@@ -575,6 +621,7 @@ pub fn run(ctx: &Ctx) -> ! {
     let headers = evals.load(Ordering::Relaxed);
     let (mv, encodings) = message_part(ctx.seed, &evals, &nontrivial);
     violations.extend(mv.into_iter().take(10));
+    violations.extend(codec_history_part(&evals, &nontrivial).into_iter().take(6));
     let before = evals.load(Ordering::Relaxed);
     violations.extend(totality_part(thorough, &encodings, ctx.seed, &evals, &nontrivial).into_iter().take(20));
     let totality = evals.load(Ordering::Relaxed) - before;
